@@ -266,7 +266,7 @@ func shrinkCandidates(p *plan.Plan, v plan.Violation) []*plan.Plan {
 
 func isConstructor(op string) bool {
 	switch op {
-	case "path_new", "query_new", "query_build", "enc_new", "dec_new":
+	case "path_new", "query_new", "query_build", "enc_new", "dec_new", "val_new":
 		return true
 	}
 	return false
